@@ -82,6 +82,9 @@ pub fn run_case(ctx: &mut CaseCtx) -> CaseResult {
     if ctx.case % 8 == 7 {
         return std_case(ctx);
     }
+    if ctx.case % 8 == 3 {
+        return flush_under_load_case(ctx);
+    }
     let rng = &mut ctx.rng;
     let out = *rng.pick(&[Out::File, Out::FileRot, Out::FileRot, Out::Writer]);
     let wmode = gen_wmode(rng, ctx.case);
@@ -295,6 +298,196 @@ pub fn run_case(ctx: &mut CaseCtx) -> CaseResult {
             "output": format!("{out:?}"), "write_mode": format!("{wmode:?}"),
             "ending": format!("{ending:?}"), "records_before": n_before, "records_after": n_after,
             "threads": threads, "slow_async_writer": slow,
+            "naming": cfg.names.naming.label(),
+        }));
+    }
+    res
+}
+
+// ------------------------------------------------------------------------------------------
+// flush() while other threads keep logging: the marker the flushing thread logged before must be
+// physically there when flush() returns, whoever holds the writer at that moment
+
+fn flush_under_load_case(ctx: &mut CaseCtx) -> CaseResult {
+    let rng = &mut ctx.rng;
+    let wmode = match rng.below(6) {
+        0 => WMode::Direct,
+        1 => WMode::SupportCapture,
+        2 => WMode::BufFlush(8192, 1000),
+        3 => WMode::BufDont(100_000),
+        _ => WMode::BufDont(*rng.pick(&[8192usize, 1 << 20, 1 << 24])),
+    };
+    let rotating = rng.chance(1, 3);
+    let noise_threads = rng.range(1, 4) as usize;
+    let rounds = if ctx.thorough { 40 } else { 20 };
+    let names = NameCfg {
+        dir: ctx.dir.join("out"),
+        basename: "c04".into(),
+        discr: None,
+        start_ts: None,
+        suffix: Some("log".into()),
+        naming: if rotating { flw::gen_naming(rng, false) } else { NamingK::NoRotation },
+    };
+    let cfg = FlwCfg {
+        names,
+        use_ts: false,
+        // rare rotations: a stable directory listing must be obtainable between two of them
+        crit: if rotating { Some(Crit::Size(30_000)) } else { None },
+        clean: Clean::Never,
+        clean_bg: false,
+        wmode,
+        crlf: false,
+        append: false,
+        symlink: None,
+        use_utc: false,
+        max_level: log::LevelFilter::Trace,
+        fmt: FmtK::Raw,
+        l2: true,
+    };
+    let facts = format!(
+        "{}/{}/flush-while-others-log",
+        if rotating { "FileRot" } else { "File" },
+        wmode.label()
+    );
+    let mut res = CaseResult::new(format!("{facts}|noise{noise_threads}"));
+    ctl::install(false);
+    ctl::clock_unset();
+    let mut lg = Logger::with(LogSpecification::trace())
+        .format(flw::fmt_raw)
+        .write_mode(wmode.to_write_mode())
+        .error_channel(flw::error_channel())
+        .log_to_file(cfg.file_spec());
+    if let (Some(n), Some(c)) = (cfg.naming(), cfg.criterion()) {
+        lg = lg.rotate(c, n, cfg.cleanup());
+    }
+    let (boxed, handle) = match lg.build() {
+        Ok(x) => x,
+        Err(e) => {
+            res.violate("build-failed", "C04/build-failed", format!("{e:?}"));
+            ctl::uninstall();
+            return res;
+        }
+    };
+    let boxed: Arc<Box<dyn log::Log>> = Arc::new(boxed);
+    let run = ctx.case;
+    let stop = Arc::new(std::sync::atomic::AtomicBool::new(false));
+    let mut joins = Vec::new();
+    for t in 1..=noise_threads {
+        let b = Arc::clone(&boxed);
+        let stop = Arc::clone(&stop);
+        let mut trng = rng.fork();
+        joins.push(std::thread::spawn(move || {
+            let mut s = 0u64;
+            // bounded, so that the files stay small however long the main thread takes
+            while !stop.load(std::sync::atomic::Ordering::Relaxed) && s < 6000 {
+                let m = flw::msg_id(run, t as u64, s, trng.usize(40));
+                flw::with_record(log::Level::Info, "flmon::c04", &m, |r| b.log(r));
+                s += 1;
+                if s % 64 == 0 {
+                    std::thread::yield_now();
+                }
+            }
+            s
+        }));
+    }
+    // a listing that is the same before and after the files were read: no rotation in between,
+    // so every file that was read is the file that was listed
+    let stable_stream = |cfg: &FlwCfg| -> Option<Vec<u8>> {
+        for _ in 0..20 {
+            let before: Vec<String> = std::fs::read_dir(&cfg.names.dir)
+                .ok()?
+                .filter_map(|e| e.ok().map(|e| e.file_name().to_string_lossy().to_string()))
+                .collect();
+            let obs = family::observe(&cfg.names);
+            let after: Vec<String> = std::fs::read_dir(&cfg.names.dir)
+                .ok()?
+                .filter_map(|e| e.ok().map(|e| e.file_name().to_string_lossy().to_string()))
+                .collect();
+            let (mut b, mut a) = (before, after);
+            b.sort();
+            a.sort();
+            if a != b {
+                continue;
+            }
+            if let Ok(o) = obs {
+                if let Ok(s) = o.stream() {
+                    return Some(s);
+                }
+            }
+        }
+        None
+    };
+    let mut judged = 0u64;
+    let mut unstable = 0u64;
+    for k in 0..rounds {
+        let m = flw::msg_id(run, 0, k, rng.usize(40));
+        flw::with_record(log::Level::Info, "flmon::c04", &m, |r| boxed.log(r));
+        handle.flush();
+        match stable_stream(&cfg) {
+            None => unstable += 1,
+            Some(content) => {
+                judged += 1;
+                let needle = format!("{m}\n");
+                let found = content
+                    .windows(needle.len())
+                    .any(|w| w == needle.as_bytes());
+                if !found {
+                    res.violate(
+                        "record-left-behind",
+                        format!("C04/record-not-flushed/{facts}"),
+                        format!(
+                            "round {k}: record {run}.0.{k} was logged, then flush() returned, and the record is in none of the files ({} bytes read) while {noise_threads} other thread(s) keep logging",
+                            content.len()
+                        ),
+                    );
+                    break;
+                }
+            }
+        }
+        if rng.chance(1, 3) {
+            std::thread::sleep(std::time::Duration::from_micros(rng.range(10, 300) as u64));
+        }
+    }
+    stop.store(true, std::sync::atomic::Ordering::Relaxed);
+    let mut expected = vec![rounds.min(if res.verdict == Verdict::Held { rounds } else { 0 })];
+    let mut noise_total = 0u64;
+    for j in joins {
+        let n = j.join().unwrap_or(0);
+        noise_total += n;
+        expected.push(n);
+    }
+    handle.shutdown();
+    if res.verdict == Verdict::Held {
+        // everything, exactly once, in per-thread order
+        match family::observe(&cfg.names).map(|o| o.stream()) {
+            Ok(Ok(content)) => {
+                if let Err((kind, detail)) = check_stream(&content, run, &expected, b"\n") {
+                    res.violate(
+                        "record-left-behind",
+                        format!("C04/{kind}/{facts}/final"),
+                        format!("after the final shutdown(): {detail}"),
+                    );
+                }
+            }
+            Ok(Err(e)) => res.violate("unreadable", format!("C04/unreadable/{facts}"), e),
+            Err(e) => res.violate("unreadable", format!("C04/unreadable/{facts}"), e.to_string()),
+        }
+    }
+    drop(handle);
+    drop(boxed);
+    ctl::uninstall();
+    res.absorb_panics("C04", "flush while other threads log");
+    res.count("flush_rounds_judged_under_load", judged);
+    res.count("flush_rounds_without_stable_listing", unstable);
+    res.count("records", noise_total + rounds);
+    res.nontrivial = judged > 0;
+    if judged == 0 && res.verdict == Verdict::Held {
+        res.inconclusive("no round could be judged (no stable directory listing)".to_string());
+    }
+    if ctx.case < 12 || res.verdict != Verdict::Held {
+        res.sample = Some(json!({
+            "write_mode": format!("{wmode:?}"), "rotating": rotating, "noise_threads": noise_threads,
+            "rounds": rounds, "judged": judged, "noise_records": noise_total,
             "naming": cfg.names.naming.label(),
         }));
     }
